@@ -130,6 +130,24 @@ JudgePfxs(t, i, T, v, e) ==
        /\ IF e.src = 0 THEN TRUE
           ELSE LET D == Explains(T, v, Cases[t].ev[e.src]) IN IF D = {} THEN TRUE ELSE PrintT(<<"DEV", Cases[t].id, i, D>>)
 
+(* open types (ANY DEFINED BY), C18.  e = [codec, def, chunk, Tin, vin (the inner type and value(s), a sequence:  *)
+(* one element for a scalar ANY field, several for SET OF / SEQUENCE OF ANY), resolved (TRUE: the decoder was      *)
+(* expected to resolve: resolution on and the governing value mapped), st, fields (per inner value: [typed, v]     *)
+(* with typed = TRUE and v the projection under Tin, or typed = FALSE and v = [o |-> raw octets])]                *)
+JudgeOpen(t, i, T, v, e) ==
+  IF e.st = "crash" THEN Check(t, i, "Crash", FALSE)
+  ELSE IF e.st # "ok" THEN Check(t, i, "Rejected", FALSE)
+  ELSE /\ Check(t, i, "FieldCount", Len(e.fields) = Len(e.vin))
+       /\ Len(e.fields) = Len(e.vin) =>
+            \A j \in 1..Len(e.vin) :
+               IF e.resolved
+               THEN /\ Check(t, i, "NotResolved", e.fields[j].typed)
+                    /\ (IF e.fields[j].typed THEN Check(t, i, "InnerValueDiffers", Norm(e.Tin, e.fields[j].v) = Norm(e.Tin, e.vin[j])) ELSE TRUE)
+               ELSE /\ Check(t, i, "ResolvedUnasked", ~e.fields[j].typed)
+                    /\ (IF ~e.fields[j].typed
+                        THEN Check(t, i, "RawOctetsDiffer", e.fields[j].v.o = Enc(LibMode(e), 0, e.Tin, e.vin[j]))
+                        ELSE TRUE)
+
 (* several decoders accepted the same input: same abstract value (C02) *)
 JudgeAgree(t, i, T, v, e) ==
   Check(t, i, "Disagree", \A a, b \in 1..Len(e.vs) : Norm(T, e.vs[a]) = Norm(T, e.vs[b]))
@@ -140,6 +158,7 @@ Judge(t, i) ==
     [] e.op = "dec" -> JudgeDec(t, i, c.T, c.v, e)
     [] e.op = "decu" -> JudgeDecU(t, i, c.T, c.v, e)
     [] e.op = "agree" -> JudgeAgree(t, i, c.T, c.v, e)
+    [] e.op = "open" -> JudgeOpen(t, i, c.T, c.v, e)
     [] e.op = "same" -> Check(t, i, "Disagree", e.a = e.b)      \* two library paths, same octets (C17)
     [] e.op = "pfxs" -> JudgePfxs(t, i, c.T, c.v, e)
     [] e.op = "tags" -> JudgeTags(t, i, c.T, c.v, e)
